@@ -9,6 +9,7 @@ import (
 	"strings"
 
 	"github.com/maruel/panicparse/v2/stack"
+	"github.com/maruel/panicparse/v2/verifhook"
 
 	"verifharness/core"
 	"verifharness/gen"
@@ -161,4 +162,51 @@ func c06HistoryScan(r *core.Run) {
 		r.DistinctN(1)
 	}
 	r.Count("history_scan_trials", n)
+}
+
+// c06HistoryCLI: pp's stream loop called twice and more in one process on the same bytes (through the verif hook),
+// with GOTRACEBACK unset so that single-goroutine dumps get pp's hint: every run prints the same text, and a dump
+// inside a stream gets what it gets alone. Runs after every other phase (it changes the process environment).
+func c06HistoryCLI(r *core.Run) {
+	old, had := os.LookupEnv("GOTRACEBACK")
+	os.Setenv("GOTRACEBACK", "")
+	defer func() {
+		if had {
+			os.Setenv("GOTRACEBACK", old)
+		} else {
+			os.Unsetenv("GOTRACEBACK")
+		}
+	}()
+	run := func(in []byte) string {
+		var out bytes.Buffer
+		_ = verifhook.Process(bytes.NewReader(in), &out, false, stack.AnyPointer, 2, true, false, nil, nil)
+		return out.String()
+	}
+	single := []byte("panic: boom\n\ngoroutine 1 [running]:\nmain.main()\n\t/src/app/main.go:10 +0x1d\nexit status 2\n")
+	two := append(append([]byte{}, single...), single...)
+	var first [2]string
+	n := r.N(6, 40)
+	for k := 0; k < n; k++ {
+		for v, in := range [][]byte{single, two} {
+			got := run(in)
+			r.Eval(1)
+			if k == 0 {
+				first[v] = got
+				continue
+			}
+			if got != first[v] {
+				d := firstDiff([]byte(got), []byte(first[v]))
+				r.Violation("cli-text-depends-on-earlier-run", fmt.Sprintf("run %d of pp's stream loop on the same bytes in one process prints different text than run 0, first difference at byte %d: %q vs %q", k, d, b2s(tailFrom([]byte(got), d), 120), b2s(tailFrom([]byte(first[v]), d), 120)), "hist", map[string]any{"run": k, "input": string(in)})
+				return
+			}
+		}
+	}
+	if !strings.Contains(first[0], "gotraceback") {
+		r.Broken("the in-process pp run did not print its GOTRACEBACK hint: the phase observed nothing")
+		return
+	}
+	if strings.Count(first[1], "gotraceback") != 2*strings.Count(first[0], "gotraceback") {
+		r.Violation("cli-hint-per-dump", fmt.Sprintf("a stream of two single-goroutine dumps gets %d hints, one dump alone gets %d", strings.Count(first[1], "gotraceback"), strings.Count(first[0], "gotraceback")), "hist", map[string]any{"input": string(two)})
+	}
+	r.Count("history_cli_runs", 2*n)
 }
